@@ -455,7 +455,7 @@ def classify(clause, detail):
   injected = detail.get("fault") == "injected"
   mode, action = detail.get("mode", ""), (detail.get("step_action") or "").split("(")[0]
   if "problem" in detail:
-    return "%s: %s" % (clause, re.sub(r"\d+", "N", detail["problem"])[:90])
+    return "%s: %s" % (clause, re.sub(r"\d+", "N", detail["problem"])[:140])
   symptoms = "after rollback %s, schema %s, Calculate %s, finally %s" % (
     sig.get("after_rollback"), sig.get("schema"), sig.get("calculate"), sig.get("finally"))
   if detail.get("phase") == "after the user-action loop":
